@@ -29,7 +29,7 @@ def run_src(src):
 
 
 def rejected(r):
-    return "Did not compile successfully" in (r.out + r.err) and core.BANNER not in r.err
+    return core.compile_rejected(r)
 
 
 def split_sections(lines):
